@@ -4374,6 +4374,14 @@ look_sysfsnode(struct hwloc_topology *topology,
       failednodes++;
       continue;
     }
+    /* Only keep the CPUs that got a PU object (like the core/package sets in look_sysfscpu()).
+     * A CPU listed in nodeN/cpumap whose cpuN/topology directory is missing exists in the root
+     * complete_cpuset only. If it stays here, the node is attached by a cpuset (possibly through
+     * a memory Group inserted in the middle of the root children) that becomes empty when
+     * fixup_sets() restricts it to the root cpuset: a Group without CPUs is then followed by
+     * siblings with CPUs and hwloc_topology_check() aborts on assert(!prev_empty).
+     */
+    hwloc_bitmap_and(cpuset, cpuset, topology->levels[0][0]->cpuset);
     if (hwloc_bitmap_intersects(nodes_cpuset, cpuset)) {
       /* Buggy BIOS with overlapping NUMA node cpusets, impossible on Linux so far, we should ignore them.
        * But it may be useful for debugging the core.
